@@ -9,8 +9,8 @@
 //!   ops2 tlp.c  <ncols> <pred> <sizes> <table>   chunk structure of the filter p (positions)
 //!   ops2 sort   <ncols> <keys> <sizes> <table>   positions in output order (flat)
 //!   ops2 sort.c <ncols> <keys> <sizes> <table>   … with the output chunk structure
-//!   ops2 sort.m <p|n> <ncols> <keys> <sizes> <table>   … as a sorted multiset (more than 20 rows, comparator
-//!                                             not a preorder); p = `sort_by` was seen to panic on this input
+//!   ops2 sort.m <p|n> <ncols> <keys> <sizes> <table>   as `sort` (regression lines: before the repair of the
+//!                                             comparator `sort_by` could panic here)
 //!   ops2 count  <ncols> <col> <pred|-> <skip|-> <limit|-> <sizes> <table>
 //!                                             count(*),count(col) of Simple ; Hash aggregate ; rows,non-null of the pipeline
 //!   ops2 pipe.f <ncols> <stages> <sizes> <table> rows of the chain (flat) ; pipe.c with chunk structure
@@ -18,7 +18,7 @@
 //!   ops2 qtlp <ncols> <pred> <table>           the three WHERE queries through the Cypher front end (one
 //!                                             node per row, a NULL cell = a missing property)
 //!   ops2 qord <keys> <skip|-> <limit|-> <table>   MATCH … RETURN … ORDER BY … SKIP … LIMIT …
-//!   ops2 qord.m <p|n> <keys> <table>           … as a sorted multiset (p = seen to panic)
+//!   ops2 qord.m <p|n> <keys> <table>           as `qord` without a window (regression lines)
 //!   ops2 qcnt <ncols> <col> <pred|-> <table>   RETURN count(*), count(n.c<col>) against the number of rows
 //!
 //!   <table>  = r1;r2;…  (row = value tokens joined by `,`) | -
@@ -346,11 +346,6 @@ fn run_sort(mode: &str, ncols: usize, keys: &str, sizes: &str, table: &str) -> S
     match drain(op) {
         Ok(cs) => match mode {
             "c" => show_pos_chunks(&cs),
-            "m" => {
-                let mut v: Vec<i64> = cs.iter().flatten().map(|r| pos_of(r).parse().unwrap_or(-1)).collect();
-                v.sort();
-                if v.is_empty() { "-".into() } else { v.iter().map(|x| x.to_string()).collect::<Vec<_>>().join(",") }
-            }
             _ => show_pos_flat(&cs),
         },
         Err(e) => e,
@@ -640,16 +635,8 @@ pub fn run(args: &[&str]) -> String {
         ["pipe.c", n, st, s, t] => run_pipe(true, n.parse().unwrap(), st, s, t),
         ["qtlp", n, p, t] => run_qtlp(n.parse().unwrap(), p, t),
         ["qord", k, sk, li, t] => run_qord(k, sk, li, t),
-        ["qord.m", _hint, k, t] => {
-            let r = run_qord(k, "-", "-", t);
-            if r == "panic" || r == "err" || r == "-" {
-                r
-            } else {
-                let mut v: Vec<i64> = r.split(',').map(|x| x.parse().unwrap_or(-1)).collect();
-                v.sort();
-                v.iter().map(|x| x.to_string()).collect::<Vec<_>>().join(",")
-            }
-        }
+        // regression lines of the corpus (the old comparator could make `sort_by` panic here)
+        ["qord.m", _hint, k, t] => run_qord(k, "-", "-", t),
         ["qcnt", n, c, p, t] => run_qcnt(n.parse().unwrap(), c.parse().unwrap(), p, t),
         _ => "bad-op".into(),
     })
@@ -1088,20 +1075,9 @@ pub fn generate(seed: u64, cases: usize, out: &mut Vec<String>) {
         out.push(format!("ops2 sort {} {} {} {}", nc, keys, gen_sizes(&mut r, n), table));
         out.push(format!("ops2 sort {} {} {} {}", nc, keys, gen_sizes(&mut r, n), table));
         out.push(format!("ops2 sort.c {} {} {} {}", nc, keys, gen_sizes(&mut r, n), table));
-        // columns of mixed kinds: up to 20 rows `sort_by` is an insertion sort (the order is
-        // determined even where the comparator is not a preorder), beyond that only the multiset is
-        if n <= 20 {
-            out.push(format!("ops2 sort {} {} {} {}", nc, gen_keys(&mut r, &all), gen_sizes(&mut r, n), table));
-        } else {
-            // whether `sort_by` notices the inconsistency and panics depends on the run structure
-            // it happens to find; the line records what this tree does (the model accepts a panic
-            // only where the comparator is not a preorder)
-            let keys = gen_keys(&mut r, &all);
-            let sizes = gen_sizes(&mut r, n);
-            let hint = if guarded(|| run_sort("m", nc, &keys, &sizes, &table)) == "panic" { "p" } else { "n" };
-            out.push(format!("ops2 sort.m {} {} {} {} {}", hint, nc, keys, sizes, table));
-        }
-        let safe = if n <= 20 && r.chance(1, 2) { all.clone() } else { safe };
+        // columns of mixed kinds (strings, booleans, numbers, NaN in one column)
+        out.push(format!("ops2 sort {} {} {} {}", nc, gen_keys(&mut r, &all), gen_sizes(&mut r, n), table));
+        let safe = if r.chance(1, 2) { all.clone() } else { safe };
         // count
         for _ in 0..2 {
             let extra = r.chance(1, 10) as u64;
@@ -1132,18 +1108,11 @@ pub fn generate(seed: u64, cases: usize, out: &mut Vec<String>) {
                     out.push(format!("ops2 qtlp {} {} {}", nc, p, table));
                 }
             }
-            let keys = gen_keys(&mut r, &safe);
+            let keys = gen_keys(&mut r, &all);
             if keys != "-" {
                 let sk = if r.chance(1, 3) { r.below(n as u64 + 2).to_string() } else { "-".into() };
                 let li = if r.chance(1, 3) { r.below(n as u64 + 2).to_string() } else { "-".into() };
                 out.push(format!("ops2 qord {} {} {} {}", keys, sk, li, table));
-            }
-            if n > 20 {
-                let keys = gen_keys(&mut r, &all);
-                if keys != "-" {
-                    let hint = if guarded(|| run_qord(&keys, "-", "-", &table)) == "panic" { "p" } else { "n" };
-                    out.push(format!("ops2 qord.m {} {} {}", hint, keys, table));
-                }
             }
             let col = r.below(nc as u64);
             let p = if r.chance(1, 2) { simple_pred(&mut r, &t) } else { "-".into() };
